@@ -774,10 +774,18 @@ func (x *runner) variants(r *rand.Rand, st c13.SchemaText, base string) {
 	}
 }
 
+// one measured text with the answer the statement demands: want >= 0 = that length, want = -1 = an error
+type pooled struct {
+	kind, text string
+	want       int
+}
+
 type runner struct {
-	rep   *vh.Report
-	hr    *rand.Rand     // PRNG of the call histories (apart from the case stream)
-	types c13.SchemaText // user types of the schema under test (for AddType in histories)
+	pool    []pooled // accepted texts with the demanded length
+	malPool []pooled // malformed starts (an error is demanded)
+	rep     *vh.Report
+	hr      *rand.Rand     // PRNG of the call histories (apart from the case stream)
+	types   c13.SchemaText // user types of the schema under test (for AddType in histories)
 }
 
 // ---------------------------------------------------------------------------------------------------------
@@ -949,7 +957,58 @@ func (x *runner) triple(comp, kind, s, end, sep, t, extraInput string) bool {
 			Model: fmt.Sprintf("LEN %d = len(S)", len(s))})
 		return false
 	}
+	if len(x.pool) < 60000 {
+		x.pool = append(x.pool, pooled{kind, whole, len(s)})
+	}
 	return true
+}
+
+// interleaved: Len of a text does not depend on which OTHER objects were measured before it — accepted texts (with and
+// without trailing text), bare values ending exactly at the end of the text, and malformed starts of every kind, in a
+// random order, each on a fresh object; the answers are those of the streams above (len(S) / an error).
+func (x *runner) interleaved(r *rand.Rand, n int) {
+	rep := x.rep
+	pool := append([]pooled(nil), x.pool...)
+	for _, v := range []string{"42", "0", "-1", "1.5", "true", "false", "null", `"a"`, `""`, "[]", "{}", "[1]", `{"a": 1}`, "7 ", "[1, 2]\n"} {
+		pool = append(pool, pooled{"schema", v, len(strings.TrimRight(v, " \n"))}, pooled{"json", v, len(strings.TrimRight(v, " \n"))})
+	}
+	for _, v := range []string{"@a", "@a | @b", "[]", "[1]", `["a", 2]`} {
+		k := "schema"
+		if v[0] == '[' {
+			k = "enum"
+		}
+		pool = append(pool, pooled{k, v, len(v)})
+	}
+	for _, v := range []string{`"abc`, `{"a": tru}`, "-", "12.", `"a\q"`, "@cat | ", "[1,", `{"a"`, "{", "[", `"\u12`, "tru", "1e", "[1 2]", `{"a" 1}`, "nul", `["x`} {
+		pool = append(pool, pooled{"schema", v, -1}, pooled{"json", v, -1})
+		if v[0] == '[' {
+			pool = append(pool, pooled{"enum", v, -1})
+		}
+	}
+	small := pool[len(x.pool):] // the hand-written short texts (accepted and malformed)
+	for i := 0; i < n; i++ {
+		var p pooled
+		switch {
+		case i%4 == 0 && len(x.malPool) > 0:
+			p = x.malPool[r.Intn(len(x.malPool))]
+		case i%4 == 3 && len(x.pool) > 0:
+			p = x.pool[r.Intn(len(x.pool))]
+		default:
+			p = small[r.Intn(len(small))]
+		}
+		got := lenOf(p.kind, p.text)
+		rep.Case("I\x00"+p.kind+"\x00"+p.text, true)
+		rep.Stat("interleaved_" + p.kind)
+		bad := (p.want < 0 && got.err == "") || (p.want >= 0 && (got.err != "" || got.n != p.want))
+		if bad {
+			want := "an error"
+			if p.want >= 0 {
+				want = fmt.Sprintf("LEN %d", p.want)
+			}
+			rep.AddDiff(vh.Diff{Component: "C14-interleaved", Input: fmt.Sprintf("%s text %q measured on a fresh object as call #%d of a random sequence of Len calls on OTHER fresh objects (accepted and malformed texts alternating)", p.kind, p.text, i+1),
+				Impl: "Len = " + got.String(), Model: want + " (what the same text gives when measured first)"})
+		}
+	}
 }
 
 func Run(args []string) {
@@ -1138,6 +1197,9 @@ func Run(args []string) {
 		rep.Case("M\x00"+kind+"\x00"+text, nontrivial)
 		rep.Stat("malformed_" + kind + "_" + how)
 		got := lenOf(kind, text)
+		if kind != "regex" && len(x.malPool) < 20000 {
+			x.malPool = append(x.malPool, pooled{kind, text, -1})
+		}
 		if got.err == "" {
 			rep.AddDiff(vh.Diff{Component: "C14-malformed", Input: fmt.Sprintf("%s text %q (%s)", kind, text, how), Impl: "Len = " + got.String(), Model: "an error: the text does not begin with a lexically complete " + kind})
 		} else {
@@ -1243,5 +1305,6 @@ func Run(args []string) {
 	for _, c := range []string{"", "abc", "/abc", "/", "//", " /a/", "/a\\/", "/[/"} {
 		mal("regex", c, "regex", c != "")
 	}
+	x.interleaved(vh.NewRand(salt+3), vh.Pick(20000, 300000))
 	rep.Finish()
 }
